@@ -158,8 +158,8 @@ INTERP_ERRORS = ("builtins.AttributeError", "builtins.TypeError", "builtins.Valu
 def enc_machinery_error(x):
     """an error raised by Pyro's decoding machinery / the interpreter: interpreter messages are not modelled"""
     q = qual(type(x))
-    if q in INTERP_ERRORS:
-        return "X(%s;L(A13f);D())" % cps(q)
+    if not q.startswith("Pyro5.errors.") and q != "builtins.RuntimeError":
+        return "X(%s;L(A13f);D())" % cps(q)       # raised by the interpreter / a constructor: message not modelled
     return "X(%s;%s;D())" % (cps(q), enc(list(x.args), True))
 
 
